@@ -1,4 +1,4 @@
-import LentilVerif.Model.Zernike
+import LentilVerif.Model.ZernikeRadial
 /-! Finite exact tables for C11, closed by `decide +kernel` (no axioms): R_n^m(1) = 1 and the radial Gram matrix over ℚ. Kept in their own module so that they are re-checked
 only when `Model/Zernike.lean` changes (the Gram table takes about a minute). -/
 namespace Lentil
